@@ -176,6 +176,7 @@ def decide(spec, group, tier, seed, replay=None):
     shrunk_from = {}
     order_fails = []
     ndebug_fails = []
+    thread_fails = []
     corr_breaks, orc_fails, known_hits = [], [], []
     harness_note = None
     with core.Scratch() as scr:
@@ -281,6 +282,20 @@ def decide(spec, group, tier, seed, replay=None):
                             if len(ndebug_fails) >= 3: break
                     notes.append('NDEBUG pass: %d lines re-run on a harness built with -DNDEBUG in %.1fs (build %.1fs), %d differ' % (len(lines), time.time() - t0, t_nd, len(ndebug_fails)))
 
+            # ---- 2d. independence of the calling thread ------------------------------------------------
+            # every line again, each on a thread of its own inside a fresh harness process (started and joined per line: nothing
+            # runs concurrently): per-thread state that only the first thread of a process initialises properly shows here
+            if not replay and group.get('thread_mode') and not spec.get('no_thread_check'):
+                t0 = time.time(); iout_th = core.run_lines(hcmd, lines, env={'EPSIC_HARNESS_THREAD': '1'}); icanon = spec.get('impl_canon')
+                for i, l in enumerate(lines):
+                    o2 = iout_th[i] if i < len(iout_th) else 'err no-output'
+                    if icanon: o2 = icanon(o2, l)
+                    if canon(o2) != canon(impl_out.get(i, '')) and not known_match(known, pid, l):
+                        thread_fails.append({'line': l, 'main_thread': impl_out.get(i, ''), 'second_thread': o2})
+                        orc_fails.append((i, 'the answer depends on the calling thread: on the main thread %s, on a second thread %s' % (impl_out.get(i, '')[:120], o2[:120])))
+                        if len(thread_fails) >= 3: break
+                notes.append('thread pass: %d lines re-run each on a thread of its own in %.1fs, %d differ' % (len(lines), time.time() - t0, len(thread_fails)))
+
             # ---- 3. search when something no longer checks -------------------------------------
             if (broken or corr_breaks) and not orc_fails and not replay:
                 log('%s: obligation/correspondence broken; searching for a failing input' % pid)
@@ -333,6 +348,17 @@ def decide(spec, group, tier, seed, replay=None):
                     if canon(a) != canon(b):
                         cases.append(Case(l, 'orc', 'ndebug')); impl_out[len(cases) - 1] = b
                         orc_fails.append((len(cases) - 1, 'the answer depends on whether the caller defines NDEBUG: %s vs %s' % (a[:120], b[:120])))
+    if replay and rj.get('thread_dependence'):
+        with core.Scratch() as scr:
+            e1, _, _ = core.build_harness(scr, group['name'], group['sources'], group.get('repo_sources', ()), group.get('flags', ()), group.get('libs', ('-lgmpxx', '-lgmp')))
+            if e1:
+                nl = [x['line'] for x in rj['thread_dependence']]; icanon = spec.get('impl_canon')
+                o1, o2 = core.run_lines([e1], nl), core.run_lines([e1], nl, env={'EPSIC_HARNESS_THREAD': '1'})
+                for l, a, b in zip(nl, o1, o2):
+                    if icanon: a, b = icanon(a, l), icanon(b, l)
+                    if canon(a) != canon(b):
+                        cases.append(Case(l, 'orc', 'thread')); impl_out[len(cases) - 1] = b
+                        orc_fails.append((len(cases) - 1, 'the answer depends on the calling thread: %s vs %s' % (a[:120], b[:120])))
     if replay:
         for od in rj.get('order_dependence', []):
             if 'extra' not in od: continue
@@ -433,6 +459,7 @@ def decide(spec, group, tier, seed, replay=None):
             'shrunk_from': shrunk_from,
             'order_dependence': order_fails,
             'ndebug_dependence': ndebug_fails,
+            'thread_dependence': thread_fails,
             'replay_cmd': './check %s --replay %s' % (pid, replay_path),
         }
         json.dump(rj, open(replay_path, 'w'), indent=1)
